@@ -1,9 +1,168 @@
-(* C06 - World queries always agree on who owns which component.
-   Statement file (theorems are added below once QProofs.v is complete). *)
-From Coq Require Import ZArith List Bool.
-From Desper Require Import World.QLib World.QHier World.QModel.
+(* C06 - Type queries match exactly the subclasses, once each.
+   Statement file: theorems only, each closed by [exact]. *)
+From Coq Require Import ZArith List Bool Permutation.
+From Desper Require Import World.QLib World.QHier World.QHierProofs World.QModel
+                           World.QProofs World.QReadings.
 Import ListNotations.
 Open Scope Z_scope.
 
-Example C06_placeholder_model_compiles : accepts {| c_H := []; c_trace := [] |} = true.
+(* For EVERY hierarchy of component / processor classes in which bases precede
+   subclasses (any DAG, multiple inheritance included; Python accepts a
+   subset of these), every assignment of types to entities and every query
+   type: along every well-formed trace accepted by the model of
+   desper/logic/world.py, each query by type observed after each operation
+   (get, get_component, has_component, get_processor) and each result of
+   remove_component / remove_processor satisfies the specification: the
+   objects matched are those whose type is T or a direct or indirect subclass
+   of T, get(T) lists each once, single-result queries return the object of
+   exactly type T when there is one, and a removal detaches exactly the
+   returned object.  [holds06 c] is [spec_run ... sel_type ... = true]. *)
+Theorem C06_type_queries :
+  forall c : C06_case, wf_b c = true -> known_b c = false -> accepts c = true -> holds06 c.
+Proof. exact accepts_holds06. Qed.
+Print Assumptions C06_type_queries.
+
+(* [issub], the relation used by the specification, is the reflexive-
+   transitive closure of "lists as a direct base" *)
+Theorem C06_issub_is_the_subclass_relation :
+  forall H, hier_wf H -> forall u t, issub H u t = true <-> sub H u t.
+Proof. exact issub_spec. Qed.
+
+(* the walk of the repaired _get (visited set) visits exactly the subclasses
+   of T, once each, for every hierarchy *)
+Theorem C06_walk_visits :
+  forall H fuel T l, get_types_walk H fuel T = Some l ->
+    NoDup l /\ forall u, In u l <-> sub H u T.
+Proof. exact walk_visits. Qed.
+Print Assumptions C06_walk_visits.
+
+(* the walks with early return: what they find is a subclass that passes the
+   test, they find nothing only if no subclass passes, and the exact type is
+   examined first *)
+Theorem C06_walk_finds_a_subclass :
+  forall H test fuel T u, find_walk H test fuel [T] = WFound u ->
+    test u = true /\ sub H u T.
+Proof.
+  intros H test fuel T u W. destruct (find_sound H test fuel [T] u W) as (Ht & v & [<-|[]] & Hs).
+  exact (conj Ht Hs).
+Qed.
+
+Theorem C06_walk_misses_nothing :
+  forall H test fuel T, find_walk H test fuel [T] = WNone ->
+    forall u, sub H u T -> test u = false.
+Proof.
+  intros H test fuel T W u Hs. exact (find_complete H test fuel [T] W T u (or_introl eq_refl) Hs).
+Qed.
+
+Theorem C06_walk_first_exact :
+  forall H test fuel T rest, test T = true -> find_walk H test (S fuel) (T :: rest) = WFound T.
+Proof. exact find_exact. Qed.
+
+(* has_component's variant (fringe extended before the test) is the same function *)
+Theorem C06_has_walk_is_find_walk :
+  forall H test fuel st, has_walk H test fuel st = find_walk H test fuel st.
+Proof. exact has_walk_find. Qed.
+
+(* no walk of the model stops for lack of fuel, whatever the hierarchy *)
+Theorem C06_fuel_suffices :
+  forall H, hier_wf H -> forall test T,
+    find_walk H test (walk_fuel H) [T] <> WFuel /\
+    has_walk H test (walk_fuel H) [T] <> WFuel /\
+    get_types_walk H (walk_fuel H) T <> None.
+Proof.
+  intros H WF test T.
+  exact (conj (find_walk_fuel H WF test T) (conj (has_walk_fuel H WF test T) (get_walk_fuel H WF T))).
+Qed.
+
+(* the acceptor reads the returned object from the observation and checks
+   that it is allowed; the answer of the code-shaped walk itself always is *)
+Theorem C06_own_walk_answer_allowed :
+  forall H tbl T, hier_wf H -> NoDup (akeys tbl) -> NoDup (avals tbl) ->
+  match find_walk H (fun u => amem u tbl) (walk_fuel H) [T] with
+  | WFound u0 =>
+      exists c, alookup u0 tbl = Some c /\
+        pick H (walk_fuel H) tbl (WFound u0) T (Some c) = Some (Some u0)
+  | WNone => pick H (walk_fuel H) tbl WNone T None = Some None
+  | WFuel => False
+  end.
+Proof. exact own_answer_allowed. Qed.
+
+(* What the clauses checked by [holds06] say on raw observations
+   (get / get_component / has_component: see also Props/C01.v). *)
+Theorem C06_get_lists_each_matching_component_once :
+  forall H, hier_wf H -> forall t, story t -> forall T r,
+    spec_query H t (QGet T r) = true ->
+    NoDup r /\ forall e c, In (e, c) r <-> exists u, In (e, u, c) (att t) /\ sub H u T.
+Proof. exact reading_get. Qed.
+
+Theorem C06_get_processor_returns_a_subtype_exact_first :
+  forall H, hier_wf H -> forall t T r,
+    spec_query H t (QGetProc T r) = true ->
+    match r with
+    | None => forall u p, In (u, p) (sprocs t) -> ~ sub H u T
+    | Some p => (exists u, In (u, p) (sprocs t) /\ sub H u T) /\
+                (forall p', In (T, p') (sprocs t) -> p' = p)
+    end.
+Proof. exact reading_get_processor. Qed.
+
+(* remove_component(e, T) returning c: c was attached to e under a subtype of
+   T (exactly T if e had one), and afterwards exactly that one attachment is
+   gone *)
+Theorem C06_remove_component_detaches_exactly_one :
+  forall H, hier_wf H -> forall t, story t -> forall e T c t',
+    spec_step H t (ORemove e T) (RObj (Some c)) = Some t' ->
+    exists u, In (e, u, c) (att t) /\ sub H u T /\
+              (forall c', In (e, T, c') (att t) -> c' = c) /\
+              Permutation (att t) ((e, u, c) :: att t') /\ sprocs t' = sprocs t.
+Proof. exact reading_remove. Qed.
+
+Theorem C06_remove_processor_detaches_exactly_one :
+  forall H, hier_wf H -> forall t, story t -> forall T p t',
+    spec_step H t (ORemoveProc T) (RObj (Some p)) = Some t' ->
+    exists u, In (u, p) (sprocs t) /\ sub H u T /\
+              (forall p', In (T, p') (sprocs t) -> p' = p) /\
+              Permutation (sprocs t) ((u, p) :: sprocs t') /\ att t' = att t.
+Proof. exact reading_remove_processor. Qed.
+
+(* ---- non-vacuity ------------------------------------------------------------- *)
+(* classes A, B(A), C(A), D(B, C), E(D) *)
+Definition ex_H : hier := [[]; [0%nat]; [0%nat]; [1%nat; 2%nat]; [3%nat]].
+Definition ex_ok : C06_case := {| c_H := ex_H; c_trace := [
+  (OCreate None [(3%nat, 10); (2%nat, 11)], RId 1,
+     [QGet 0%nat [(1, 11); (1, 10)]; QGet 1%nat [(1, 10)]; QHas 1 4%nat false;
+      QGetComponent 1 2%nat (Some 11); QGetComponent 1 1%nat (Some 10)]);
+  (OAdd 1 4%nat 12, RUnit, [QGet 0%nat [(1, 10); (1, 12); (1, 11)]; QGetComponent 1 3%nat (Some 10)]);
+  (* the implementation may pick either subtype when the exact type is absent *)
+  (ORemove 1 1%nat, RObj (Some 12), [QGet 0%nat [(1, 10); (1, 11)]; QHas 1 4%nat false]);
+  (OAddProc 3%nat 20, RUnit, [QGetProc 0%nat (Some 20); QGetProc 4%nat None]);
+  (OAddProc 2%nat 21, RUnit, [QGetProc 2%nat (Some 21); QGetProc 0%nat (Some 20)]);
+  (ORemoveProc 2%nat, RObj (Some 21), [QGetProc 2%nat (Some 20)]);
+  (ORemoveProc 0%nat, RObj (Some 20), [QGetProc 0%nat None])
+  ] |}.
+Example C06_nonvacuous : wf_b ex_ok = true /\ known_b ex_ok = false /\ accepts ex_ok = true.
+Proof. vm_compute. auto. Qed.
+
+(* D7 (repaired by ed7d8c8): under a diamond get(A) listed the component twice *)
+Example C06_diamond_listed_twice_rejected :
+  holds06_b {| c_H := ex_H; c_trace := [
+    (OCreate None [(3%nat, 10)], RId 1, [QGet 0%nat [(1, 10); (1, 10)]]) ] |} = false.
+Proof. vm_compute. reflexivity. Qed.
+
+(* a subclass preferred to the exact type *)
+Example C06_exact_type_not_preferred_rejected :
+  holds06_b {| c_H := ex_H; c_trace := [
+    (OCreate None [(0%nat, 10); (1%nat, 11)], RId 1, [QGetComponent 1 0%nat (Some 11)]) ] |} = false.
+Proof. vm_compute. reflexivity. Qed.
+
+(* an indirect subclass missed *)
+Example C06_indirect_subclass_missed_rejected :
+  holds06_b {| c_H := ex_H; c_trace := [
+    (OCreate None [(4%nat, 10)], RId 1, [QHas 1 0%nat false]) ] |} = false.
+Proof. vm_compute. reflexivity. Qed.
+
+(* remove_component detaching more than the returned object *)
+Example C06_remove_detaching_two_rejected :
+  holds06_b {| c_H := ex_H; c_trace := [
+    (OCreate None [(1%nat, 10); (2%nat, 11)], RId 1, []);
+    (ORemove 1 0%nat, RObj (Some 10), [QGet 0%nat []]) ] |} = false.
 Proof. vm_compute. reflexivity. Qed.
